@@ -461,6 +461,34 @@ PROPS["C15"] = dict(
                 "(known finding).",
 )
 
+PROPS["C04"] = dict(
+    modules=["common", "hdrs", "c03", "c02", "c05", "c09", "c08", "c13", "c14", "c07", "c01", "c04"],
+    contracts=["c04.equivalence", "wsgi.Files.file_response", "asgi.Files.file_response", "wsgi.Response.__call__", "asgi.Response.__call__",
+               "wsgi.SmallResponse.__call__", "asgi.SmallResponse.__call__", "wsgi.RedirectResponse.__init__", "asgi.RedirectResponse.__init__",
+               "wsgi.Subpaths.__call__", "asgi.Subpaths.__call__", "wsgi.Router.__call__", "asgi.Router.__call__",
+               "wsgi.Hosts.__call__", "asgi.Hosts.__call__", "wsgi.Pages.ensure_absolute_path", "asgi.Pages.ensure_absolute_path"],
+    no_refute=["c04.equivalence"],
+    refute={"quick": [2], "thorough": [1, 2]},
+    native="c04",
+    level="other",
+    trusted=["A-py-1", "A-solver", "A-pyvc"],
+    level_text="Relational property decided as 'both copies satisfy the same functional contract'. PROVED: (a) 14 twin functions "
+               "(Files.file_response, Pages.ensure_absolute_path, the response constructors, render methods, Request.form, "
+               "_parse_multipart, decorator, the multipart helpers) are the SAME PROGRAM after await-erasure and the declared "
+               "renamings (AST identity lemmas on the real source); (b) for the pairs that differ structurally (file handlers and "
+               "dispatch, Response / SmallResponse __call__, Subpaths, Router, Hosts) each side is verified against its contract "
+               "(obligations of C02/C05/C08/C09/C14 re-run here) and a lemma checks that the functional clauses of the two "
+               "contracts are textually identical up to the sanctioned gateway renamings (status line vs status int, chunk vs "
+               "body event). BOUNDED (labelled): the request view (all accessors incl. body/json/form/uploads over chunkings) and "
+               "responses/apps are compared differentially on both stacks over a grid.",
+    level_note="Trusted: the server's environ<->scope mapping (PEP 3333 naming, duplicate folding, Latin-1/UTF-8 transcoding) is "
+               "built by the harness; WebSocket has no WSGI twin; is_disconnected is ASGI-only. Known finding (open): an EMPTY "
+               "Range header value is 'absent' on ASGI (200) and 'present' on WSGI (400).",
+    technique="deductive: AST-identity lemmas after await-erasure + shared functional contracts discharged on both copies (SMT) + clause-equality lemma; bounded differential run of both stacks",
+    explanation="proved: twin functions are the same program; paired contracts share their functional clauses and are discharged on "
+                "both sides; bounded: differential request-view / response / app comparison.",
+)
+
 NOT_APPLICABLE = {
     "C06": "quantifies over schedules/interleavings (relay thread vs consumer vs closer, asyncio tasks vs ping timer) and is a "
            "bounded-liveness claim; contracts over a sequential, await-erased semantics cannot express an interleaving and "
